@@ -219,6 +219,8 @@ void FlexPath::transform(double magnification, bool x_reflection, double rotatio
     }
     Vec2 wo_scale = {1, magnification};
     if (scale_width) wo_scale.x = magnification;
+    // A reflection moves every offset to the other side of the spine
+    if (x_reflection) wo_scale.y = -wo_scale.y;
     FlexPathElement* el = elements;
     for (uint64_t ne = 0; ne < num_elements; ne++, el++) {
         el->end_extensions *= magnification;
